@@ -35,5 +35,6 @@ pub fn run(ctx: &Ctx) {
         }
     });
     crate::hist::histories(ctx, P, "message-histories", "EthereumMessage::signing_message, a sequence on one fresh thread", crate::hist::c10_ops());
+    crate::hist::under_entropy_answers(ctx, P, "messages-under-entropy-answers", "EthereumMessage::signing_message with the entropy source scripted", crate::hist::c10_ops());
     crate::hist::size_runs(ctx, P, "message-size-runs", "EthereumMessage::signing_message, sizes across orders of magnitude on one fresh thread", &crate::hist::size_ladder(ctx.thorough()), crate::hist::c10_sized(ctx.seed));
 }
